@@ -223,6 +223,47 @@ def _scale_case(args):
     return cnt, out
 
 
+def _big_case(args):
+    """Several hundred thousand query points in one call (the lattice
+    tiled): the classification of a point does not depend on how many
+    points are classified with it; inversion is the complement."""
+    from dclab.polygon_filter import PolygonFilter
+    out = []
+    cnt = 0
+    QXb, QYb, QPb = lattice(G)
+    reps = 3400                     # 81 * 3400 = 275400 points
+    polys = [[(0, 0), (3, 0), (3, 3), (0, 3)],
+             [(0, 0), (3, 3), (3, 0), (0, 3)],
+             [(0, 1), (2, 0), (3, 2), (1, 3), (1, 1)]]
+    for verts in polys:
+        v = np.array(verts, float)
+        inside, onb = exact_classify((v * 2).astype(int), QXb, QYb)
+        ok = np.tile(~onb, reps)
+        exp = np.tile(inside, reps)
+        x = np.tile(QPb[:, 0], reps)
+        y = np.tile(QPb[:, 1], reps)
+        for inverted in (False, True):
+            cnt += 1
+            PolygonFilter.clear_all_filters()
+            pf = PolygonFilter(axes=("area_um", "deform"), points=v,
+                               inverted=inverted)
+            got = pf.filter(x, y)
+            want = ~exp if inverted else exp
+            if got.shape != want.shape or not np.array_equal(got[ok],
+                                                             want[ok]):
+                bad = np.flatnonzero(ok & (got != want))
+                out.append(violation(
+                    PF + ".filter", "wrong-classification",
+                    {"kind": "big", "verts": [list(q) for q in verts],
+                     "inverted": inverted},
+                    f"{len(x)} points in one call, inverted={inverted}: "
+                    f"{len(bad)} wrong, first at index "
+                    f"{bad[0] if len(bad) else None}",
+                    {"nv": len(verts), "variant": "many-points"}))
+    PolygonFilter.clear_all_filters()
+    return cnt, out
+
+
 def _polyfile_case(args):
     scratch, = args
     from dclab.polygon_filter import PolygonFilter
@@ -365,6 +406,7 @@ def run(ctx):
     res = par.pmap(_grid_case, items)
     res += par.pmap(_scale_case, [(2,), (10,)])
     res += par.pmap(_polyfile_case, [(ctx.scratch,)])
+    res += par.pmap(_big_case, [()])
     viols = []
     cnt = 0
     nontriv = 0
@@ -413,5 +455,7 @@ def replay(case, ctx):
         _, vs = _scale_case((case["base"],))
         return [v for v in vs if v["case"]["k"] == case["k"]
                 and v["case"]["poly"] == case["poly"]]
+    if case.get("kind") == "big":
+        return [v for v in _big_case(())[1] if v["case"] == case]
     _, vs = _polyfile_case((ctx.scratch,))
     return [v for v in vs if v["case"]["subset"] == case["subset"]]
